@@ -1,1 +1,4 @@
 import Momo.Props.C13
+import Momo.Props.C16
+import Momo.Props.C12
+import Momo.Props.C19
